@@ -150,8 +150,26 @@ def run(ctx):
         return ["(%s, %s, %s, %s, %s, %s, %s)" % (coq_list(c["rows"][0]), coq_list(c["rows"][1]), coq_q(tx), coq_q(ty), coq_q(c["s"]),
                                               coq_q(obs[0][1]), coq_q(F(1, 2 ** 40)))]
     a_curv = lambda c: [enc_arr(c["rows"]), enc_arr([[x] for x in tangent(c)]), enc_f(c["s"])]
+    def judge_curv(c, op, cfg, raw):
+        """signed curvature = (B' x B'') / |B'|^3 with the exact derivatives"""
+        if "exc" in raw:
+            return "raised %s: %s" % (raw["exc"], raw.get("msg"))
+        got = float(dec_res(raw["ok"]))
+        n = c["n"]
+        d1 = [[n * (r[i + 1] - r[i]) for i in range(n)] for r in c["rows"]]
+        t = [oq.bernstein(r, c["s"]) for r in d1]
+        if n >= 2:
+            d2 = [[(n - 1) * (r[i + 1] - r[i]) for i in range(n - 1)] for r in d1]
+            cc = [oq.bernstein(r, c["s"]) for r in d2]
+        else:
+            cc = [F(0), F(0)]
+        cross = t[0] * cc[1] - t[1] * cc[0]
+        want = float(cross) / (float(t[0] * t[0] + t[1] * t[1]) ** 1.5)
+        if abs(got - want) > 1e-9 * max(1.0, abs(want)):
+            return "curvature %r, exact (B' x B'')/|B'|^3 = %r (degree %d, s = %s)" % (got, want, n, c["s"])
+        return None
     correspond(ctx, "get_curvature", plc, [("shim.get_curvature", a_curv, val_out), ("hazmat.get_curvature", a_curv, val_out)],
-               coq_curv, HEADER, "chk_curvature", nontrivial=nt)
+               coq_curv, HEADER, "chk_curvature", judge=judge_curv, nontrivial=nt)
 
     def coq_ni(c, obs):
         if obs[0][0] == "malformed":
